@@ -170,7 +170,16 @@ def check(ctx, rep):
         good = False
         desc = "?"
         raw_ok = False
-        if shf in fu:
+        whole = fu.get(shf)
+        if whole is not None and whole[0] == "after" and util.is_call(whole[1], ENC + "::encrypt") and whole[2] == 1 and fb.ty(fb.adt_fields(ENC)[shf]["ty"]).len == n:
+            # the encrypted header array is assigned to the output buffer as a whole
+            plain = arith.norm(whole[3])
+            raw_ok = True
+            if plain[0] == "arr":
+                enc_bytes[arm] = plain[1]
+                good = tuple(plain[1]) == want_plain[arm]
+                desc = "[%s]" % ", ".join(arith.show(x) for x in plain[1])
+        elif shf in fu:
             abase, au = updates(fu[shf])
             srcs = set()
             ok_idx = True
@@ -275,9 +284,12 @@ def check(ctx, rep):
                         mi = [k for k, v in enumerate(vs) if v["name"] == "AdditionalByteRequired"][0]
                         b_, fu = field_updates(stv) if stv is not None else (None, {})
                         stash = [v for k, v in fu.items() if v[0] == "upd"]
+                        whole_st = [v for k, v in fu.items() if strip(v) == strip(Dterm)]
                         if r[0] == "agg" and r[3] == mi and len(stash) == 1:
                             base, au = updates(stash[0])
                             ok_large = sorted(au) == [0, 1, 2, 3] and all(arith.norm(au[k], env) == ("idx", S("D"), I(k)) for k in range(4))
+                        elif r[0] == "agg" and r[3] == mi and len(whole_st) == 1:
+                            ok_large = True  # header = the 4 decrypted bytes, as a whole
             rep.check(ok_small, "decoder", fa, "short-parse", "size = BE16(b0,b1) widened, opcode = LE16(b2,b3)", "short form is not parsed as BE16 size / LE16 opcode of the 4 decrypted bytes", ab.loc())
             rep.check(ok_large, "decoder", fa, "long-stash", "the 4 decrypted bytes are stashed in order, result AdditionalByteRequired", "long form does not stash the 4 decrypted bytes in order", ab.loc())
     # ------------------------------------------------------------------ decoder: fifth byte
